@@ -9,7 +9,7 @@ From Coq Require Import Arith Lia Bool List NArith ZArith String Ascii Sorted Pe
 From Mkdb Require Import Model.Engine Spec.TableSpec Spec.HistObs Proofs.TreeProofs Proofs.StoreInv
   Proofs.BytesProofs Proofs.TupleProofs Proofs.RefineForest Proofs.RefineCodec Proofs.RefineRep
   Proofs.RefineCat Proofs.RefineDML Proofs.RefineDDL Proofs.Atomic Proofs.RefineMain Proofs.RefineFail
-  Gen.Params.
+  Proofs.FailsEarly Gen.Params.
 From Mkdb Require Proofs.CrashBase Proofs.CrashPages Proofs.CrashRedo Proofs.CrashLog Proofs.CrashMain
   Proofs.CrashHist.
 Import ListNotations.
@@ -288,6 +288,60 @@ Proof.
   destruct (find_cell k t) as [[pg c]|]; cbn [snd]; discriminate.
 Qed.
 
+(* the checks in front of the row loops *)
+Lemma check_insert_np n cols s d vals : Rep s d -> check_insert s n cols vals <> Panic.
+Proof.
+  intros HR. unfold check_insert. destruct (is_sys_table n); [discriminate|]. unfold ins_precheck.
+  pose proof (rel_offset_np s d n HR) as H1.
+  destruct (rel_offset s n) as [off|e|]; cbn [bind]; [|discriminate|congruence].
+  pose proof (get_tree_np s off) as H2.
+  destruct (get_tree s off) as [t|e|]; cbn [bind]; [|discriminate|congruence].
+  destruct (rel_schema_ok s d n HR) as [sch ->]. cbn [bind].
+  destruct (negb _); [cbn [bind]; discriminate|].
+  destruct (cols_err _ _ _); [cbn [bind]; discriminate|].
+  match goal with |- context [encode_tuple ?a ?b] =>
+    pose proof (encode_tuple_np a b) as Hen; destruct (encode_tuple a b) as [bs|e|] end;
+    cbn [bind snd]; [|discriminate|congruence].
+  unfold check_row_size. destruct (Nat.ltb _ _); discriminate.
+Qed.
+
+Lemma check_update_np n cols vals s d k : Rep s d -> check_update s n k cols vals <> Panic.
+Proof.
+  intros HR. unfold check_update. pose proof (st_update_np n cols vals s d k HR) as H.
+  destruct (snd (st_update s n k cols vals)); [discriminate | discriminate | congruence].
+Qed.
+
+Lemma first_err_np {A} (chk : A -> res unit) l : (forall a, chk a <> Panic) -> first_err chk l <> Panic.
+Proof.
+  intros H. induction l as [|a l IH]; [discriminate|]. cbn [first_err].
+  pose proof (H a) as Ha. destruct (chk a) as [u|e|]; [exact IH | discriminate | congruence].
+Qed.
+
+Lemma check_encoded_np r : r <> Panic -> check_encoded r <> Panic.
+Proof.
+  intros H. unfold check_encoded. destruct r as [bs|e|]; cbn [bind]; [|discriminate|congruence].
+  unfold check_row_size. destruct (Nat.ltb _ _); discriminate.
+Qed.
+
+Lemma check_catalog_rows_np n fds : check_catalog_rows n fds <> Panic.
+Proof.
+  unfold check_catalog_rows.
+  match goal with |- context [check_encoded ?r] =>
+    pose proof (check_encoded_np r (encode_tuple_np _ _)) as H; destruct (check_encoded r) as [u|e|] end;
+    cbn [bind]; [|discriminate|congruence].
+  induction fds as [|fd r IH]; [discriminate|]. cbn [check_schema_rows].
+  match goal with |- context [check_encoded ?r] =>
+    pose proof (check_encoded_np r (encode_tuple_np _ _)) as H1; destruct (check_encoded r) as [u1|e|] end;
+    cbn [bind]; [exact IH | discriminate | congruence].
+Qed.
+
+Lemma create_bad_rows_np s n fds : create_bad_rows s n fds = Some Panic -> False.
+Proof.
+  unfold create_bad_rows. destruct (rel_offset s n) as [o|[]|]; try discriminate.
+  pose proof (check_catalog_rows_np n fds) as H.
+  destruct (check_catalog_rows n fds) as [u|e|]; [discriminate | discriminate | congruence].
+Qed.
+
 (* ====================== multi-row statements ====================== *)
 Lemma st_insert_ok_user n cols s d vals s1 ws :
   Rep s d -> st_insert s n cols vals = (s1, Ok ws) -> is_sys n = false /\ exists t, find_tbl n d = Some t.
@@ -443,7 +497,10 @@ Lemma st_create_table_np s d n fds :
 Proof.
   intros HR Hmax. unfold st_create_table in *. fold (names fds) in *.
   destruct (names_distinct (names fds)) eqn:Hd; [|cbn [snd]; discriminate].
-  apply (st_create_table0_np s d n fds HR (names_distinct_NoDup _ Hd) Hmax).
+  destruct (create_bad_rows s n fds) as [r|] eqn:Eb;
+    [|apply (st_create_table0_np s d n fds HR (names_distinct_NoDup _ Hd) Hmax)].
+  cbn [snd]. intros ->. (* the check itself does not panic: its tuples hold a string / an integer per column *)
+  revert Eb. apply create_bad_rows_np.
 Qed.
 
 (* ====================== one statement never panics ====================== *)
@@ -474,6 +531,8 @@ Proof.
     assert (Hvals : Forall (Forall val_okP) rows).
     { apply forallb_Forall in Hst. eapply Forall_impl; [|exact Hst]. intros r. apply forallb_Forall. }
     cbn [run_stmt] in *.
+    pose proof (first_err_np (check_insert s n cols) rows (fun r => check_insert_np n cols s d r HR)) as Hfe.
+    destruct (first_err _ rows) as [u|e0|]; [|cbn [e_out]; discriminate|congruence].
     pose proof (insert_rows_np n cols rows s d [] 0%nat HR Hvals) as Hn.
     destruct (insert_rows s n cols rows [] 0) as [[s1 b] o]. cbn [e_out e_store fst snd] in *. apply Hn. exact Hmax.
   - (* UPDATE *)
@@ -482,6 +541,9 @@ Proof.
     destruct (existsb _ sets); [cbn [e_out]; discriminate|].
     pose proof (where_ids_np s d n w HR) as Hw.
     destruct (where_ids s n w) as [ids|e|] eqn:Ew; cbn [e_out]; [|discriminate|congruence].
+    pose proof (first_err_np (fun k => check_update s n k (map fst sets) (set_vals sets)) ids
+                  (fun k => check_update_np n (map fst sets) (set_vals sets) s d k HR)) as Hfe.
+    destruct (first_err _ ids) as [u|e0|]; [|cbn [e_out]; discriminate|congruence].
     destruct (is_sys n) eqn:Hsys.
     { destruct ids as [|k rest]; [cbn; discriminate|].
       cbn [update_rows]. unfold st_update, upd_bad_cols, st_update0. rewrite is_sys_table_is_sys, Hsys. cbn. discriminate. }
@@ -582,7 +644,11 @@ Fixpoint rows_move_okb (s : store) (name : string) (cols : list string) (rows : 
 
 Definition stmt_moves_okb (s : store) (st : stmt) : bool :=
   match st with
-  | SInsert name cols rows => rows_move_okb s name cols rows
+  | SInsert name cols rows =>
+      match first_err (check_insert s name cols) rows with
+      | Ok _ => rows_move_okb s name cols rows
+      | _ => true
+      end
   | _ => true
   end.
 
@@ -605,7 +671,8 @@ Qed.
 
 Lemma stmt_moves_okb_sound s st : stmt_moves_okb s st = true -> CrashRedo.stmt_moves_ok s st.
 Proof.
-  destruct st; cbn [stmt_moves_okb CrashRedo.stmt_moves_ok]; try (intros; exact I). apply rows_move_okb_sound.
+  destruct st; cbn [stmt_moves_okb CrashRedo.stmt_moves_ok]; try (intros; exact I).
+  destruct (first_err _ rows); try (intros; exact I). apply rows_move_okb_sound.
 Qed.
 
 (* ====================== one database: both invariants ====================== *)
@@ -624,6 +691,16 @@ Definition stmt_hyp (s : store) (st : stmt) : bool :=
   | _ => true
   end.
 
+(* the same without the last clause: (H1) is derived from the refinement invariant
+   (Proofs/FailsEarly.v stmt_err_unchanged) *)
+Definition stmt_hyp2 (s : store) (st : stmt) : bool :=
+  stmt_ok st &&                                                   (* literals are Go values *)
+  N.leb (nextFree (e_store (run_stmt s st))) OFFMAX &&            (* the file stays below 2^63 bytes *)
+  stmt_moves_okb s st.                                            (* C02's (H2) *)
+
+Lemma stmt_hyp_hyp2 s st : stmt_hyp s st = true -> stmt_hyp2 s st = true.
+Proof. unfold stmt_hyp, stmt_hyp2. intros H. apply andb_true_iff in H as [H _]. exact H. Qed.
+
 Definition spec_after (d : db) (st : stmt) (o : outcome) : db :=
   match o with OOk _ => spec_step d st | _ => d end.
 
@@ -635,12 +712,12 @@ Proof.
   intros [HR HI]. constructor; [unfold do_flush; cbn [mem]; apply Rep_flush; exact HR | apply CrashMain.inv_flush; exact HI].
 Qed.
 
-Lemma DbInv_exec y d st :
-  DbInv y d -> stmt_hyp (mem y) st = true ->
+Lemma DbInv_exec2 y d st :
+  DbInv y d -> stmt_hyp2 (mem y) st = true ->
   snd (exec y st) <> OPanic /\ DbInv (fst (exec y st)) (spec_after d st (snd (exec y st))).
 Proof.
-  intros [HR HI] Hh. unfold stmt_hyp in Hh.
-  apply andb_true_iff in Hh as [Hh Hearly]. apply andb_true_iff in Hh as [Hh Hmv].
+  intros [HR HI] Hh. unfold stmt_hyp2 in Hh.
+  apply andb_true_iff in Hh as [Hh Hmv].
   apply andb_true_iff in Hh as [Hok Hmax]. apply N.leb_le in Hmax.
   assert (Hnph : np_hyp (mem y) st = true).
   { unfold np_hyp. destruct st; try exact Hok; (apply andb_true_iff; split; [exact Hok | apply N.leb_le; exact Hmax]). }
@@ -648,16 +725,20 @@ Proof.
   assert (Hat : CrashMain.stmt_atomic (mem y) st).
   { unfold CrashMain.stmt_atomic. intros Hno.
     destruct (e_out (run_stmt (mem y) st)) as [c|e|] eqn:Eo; [discriminate | | congruence].
-    apply same_pages_seq. eapply fails_early_same_pages; eauto. }
+    rewrite (stmt_err_unchanged (mem y) d st e HR Hok Hmax Eo). apply CrashBase.seq_refl. }
   pose proof (CrashMain.inv_stmt y st HI (conj Hat (stmt_moves_okb_sound _ _ Hmv))) as HI1.
   split; [unfold exec; cbn [snd]; exact Hnp|].
   constructor; [|exact HI1].
   unfold exec. cbn [fst snd mem].
   destruct (e_out (run_stmt (mem y) st)) as [c|e|] eqn:Eo; [| |congruence]; cbn [spec_after].
   - eapply run_stmt_rep; eauto.
-  - destruct (fails_early_same_pages (mem y) st e Eo Hearly) as (Xf & Xp & _).
-    eapply Rep_same_pages; eauto. apply run_stmt_inv. apply (r_sinv _ _ HR).
+  - rewrite (stmt_err_unchanged (mem y) d st e HR Hok Hmax Eo). exact HR.
 Qed.
+
+Lemma DbInv_exec y d st :
+  DbInv y d -> stmt_hyp (mem y) st = true ->
+  snd (exec y st) <> OPanic /\ DbInv (fst (exec y st)) (spec_after d st (snd (exec y st))).
+Proof. intros HD Hh. apply DbInv_exec2; [exact HD | apply stmt_hyp_hyp2; exact Hh]. Qed.
 
 (* recovery: never fails, gives a system whose cache equals its file, representing the same
    database *)
